@@ -92,6 +92,7 @@ pub struct TableProvider {
     pub freeze_on_cancel: Cell<bool>,
     /// SortProbe::DepsAbandon: one nested request has been abandoned already
     pub abandoned_once: Cell<bool>,
+    pub cands_abandoned_once: Cell<bool>,
 }
 
 impl TableProvider {
@@ -119,6 +120,7 @@ impl TableProvider {
             two_step: Cell::new(false),
             freeze_on_cancel: Cell::new(false),
             abandoned_once: Cell::new(false),
+            cands_abandoned_once: Cell::new(false),
         }
     }
 
@@ -403,7 +405,20 @@ impl DependencyProvider for TableProvider {
                             Requirement::Union(un) => self.version_sets_in_union(un).collect(),
                         };
                         for v in sets {
-                            let _ = solver.get_or_cache_candidates(self.version_set_name(v)).await;
+                            let name = self.version_set_name(v);
+                            if self.probe.get() == SortProbe::DepsAbandon && !self.cands_abandoned_once.get() {
+                                // the first nested candidates request that is not answered at
+                                // once is given up after a while (other callers may be waiting
+                                // for it by then) and made again
+                                let mut fut = Box::pin(solver.get_or_cache_candidates(name));
+                                let ready = futures::future::poll_fn(|cx| std::task::Poll::Ready(std::future::Future::poll(fut.as_mut(), cx).is_ready())).await;
+                                if !ready {
+                                    self.cands_abandoned_once.set(true);
+                                    self.gate(ReqKind::Sort, s.0).await;
+                                    drop(fut);
+                                }
+                            }
+                            let _ = solver.get_or_cache_candidates(name).await;
                         }
                     }
                 }
